@@ -123,7 +123,8 @@ def _install(ctx):
     contracts.install(parso.utils, 'split_lines', _sl_post)
 
 
-COOKIES = [b'# -*- coding: utf-8 -*-', b'# coding: latin-1', b'# coding=cp1252', b'#coding:utf8', b'# vim: set fileencoding=iso-8859-15 :',
+COOKIES = [b'\x0c', b' \x0c ', b'\t', b'   ', b'\x0c# c', b' \t\x0c\x0c', b'\x0b', b'\x0c\x0b', b' #', b'\x0c\x0c#\x0c', b'\x1c', b'\xc2\xa0',
+           b'# -*- coding: utf-8 -*-', b'# coding: latin-1', b'# coding=cp1252', b'#coding:utf8', b'# vim: set fileencoding=iso-8859-15 :',
            b'#!/usr/bin/python', b'', b'# just a comment', b'x = 1', b'encoding=name', b'x#coding:cp1252', b'x = "coding: latin-1"',
            b'# coding: iso-latin-1-unix', b'# coding: utf-8-unix', b'# coding: Latin_1', b'# coding: UTF_8', b'# coding: ascii',
            b'# coding: no-such-codec', b'# coding:', b'# coding: utf-16', b'"""coding: cp1252"""', b'import os # coding: latin-1',
